@@ -129,6 +129,29 @@ Theorem static_map_faithful : forall tbl l e r, small l -> sm_read tbl l = Ok e 
 Proof. exact ProofsSMFaith.static_map_faithful. Qed.
 Print Assumptions static_map_faithful.
 
+(* Destination independence: static_map_read_bencode_c INTO a map that already holds (stale) values
+   leaves every entry either read from the input — denoting its segment as above — or exactly the
+   value the map held before at that index. (Checked on the implementation by the RI cases: stale
+   values of the same kind, trees with the unordered flag set, other kinds.) *)
+Theorem static_map_faithful_into : forall tbl e0 l e r, small l -> sm_read_into tbl e0 l = Ok e r ->
+  forall i sv, nth_error e i = Some (Some sv) ->
+  (exists pre vb suf, l = pre ++ vb ++ suf /\
+    match sv with
+    | SObj v _ => denotes vb v
+    | SRaw RawAny b => b = vb
+    | SRaw RawS b => exists ds, all_digits ds /\ vb = ds ++ ch_colon :: b
+    | SRaw RawL b => vb = ch_l :: b ++ [ch_e]
+    | SRaw RawM b => vb = ch_d :: b ++ [ch_e]
+    end) \/ nth_error e0 i = Some (Some sv).
+Proof. exact ProofsSMFaith.static_map_faithful_into. Qed.
+Print Assumptions static_map_faithful_into.
+
+Example static_map_into_nonvacuous :
+  sm_read_into ext_handshake [None; None; None; None; None; None; Some (SObj (VStr [111; 108; 100]) true)]
+    [100; 49; 58; 118; 50; 58; 120; 121; 101]
+  = Ok [None; None; None; None; None; None; Some (SObj (VStr [120; 121]) false)] [].
+Proof. vm_compute. reflexivity. Qed.
+
 (* Key exactness (after fix a215a35): an entry is filled only through an input key that equals the
    table key's path component byte for byte. `inv` is the loop invariant of the reader: it holds
    initially (init_inv) and is re-established at every recursive call in the proof of static_map_total,
